@@ -36,6 +36,7 @@ type Outcome struct {
 	Sample      any
 	Harness     string // harness trouble (exit 2 class)
 	Log         string
+	Aux         any // world-specific data handed to Expand
 }
 
 func (o *Outcome) fault(k string, n int) {
@@ -72,6 +73,12 @@ type World interface {
 	Run(t *testing.T, profile string, sc any, cfg simrt.Config) *Outcome
 	// Shrink proposes simpler scenarios (may be nil)
 	Shrink(sc any) []any
+}
+
+// Expander is implemented by worlds that enumerate fault placements: after the fault-free base run of a scenario,
+// Expand returns one derived scenario per fault point of the recorded trace; each is executed under the same seed
+type Expander interface {
+	Expand(profile string, sc any, base *Outcome, r *simrt.Rand) []any
 }
 
 var worlds = map[string]World{}
@@ -158,24 +165,18 @@ func Worker(t *testing.T, worldName, profile, property, tier string, base uint64
 	nontriv := map[uint64]bool{}
 	seen := map[string]*FoundViolation{}
 	wallStart := time.Now()
-	for idx := from; idx < to; idx += stride {
-		if budget > 0 && time.Since(wallStart) > budget {
-			break
-		}
-		seed := runSeed(base, idx)
-		r := simrt.NewRand(seed)
-		sc := w.Generate(r, profile, tier)
-		stick := []int{0, 30, 60, 80, 90, 95, 98}[r.Intn(7)]
+	stopAll := false
+	runOne := func(sc any, seed uint64, idx int, sub int, stick int) *Outcome {
 		cfg := simrt.Config{Seed: seed, Stickiness: stick}
 		if d := os.Getenv("VERIF_DUMP_EVENTS"); d != "" {
 			cfg.LogEvents = true
 		}
-		armWatchdog(fmt.Sprintf("world=%s profile=%s seed=%d idx=%d", worldName, profile, base, idx))
+		armWatchdog(fmt.Sprintf("world=%s profile=%s seed=%d idx=%d sub=%d", worldName, profile, base, idx, sub))
 		out := w.Run(t, profile, sc, cfg)
 		disarmWatchdog()
 		sum.Runs++
 		if d := os.Getenv("VERIF_DUMP_EVENTS"); d != "" {
-			_ = os.WriteFile(fmt.Sprintf("%s.%d", d, idx), []byte(strings.Join(out.Res.Events, "\n")+"\n"+out.Log), 0o644)
+			_ = os.WriteFile(fmt.Sprintf("%s.%d.%d", d, idx, sub), []byte(strings.Join(out.Res.Events, "\n")+"\n"+out.Log), 0o644)
 		}
 		sum.Steps += int64(out.Res.Steps)
 		sum.Switches += int64(out.Res.Switches)
@@ -201,16 +202,17 @@ func Worker(t *testing.T, worldName, profile, property, tier string, base uint64
 		if out.Nontrivial {
 			nontriv[hash64(scenarioHash(sc), out.Res.InterleaveH)] = true
 		}
-		if len(sum.Seeds) < 5 {
+		if len(sum.Seeds) < 5 && sub == 0 {
 			sum.Seeds = append(sum.Seeds, seed)
 		}
-		if len(sum.Samples) < 2 && out.Sample != nil && (out.Nontrivial || idx == from) {
+		if len(sum.Samples) < 2 && out.Sample != nil && (out.Nontrivial || (idx == from && sub == 0)) {
 			b, _ := json.Marshal(out.Sample)
 			sum.Samples = append(sum.Samples, b)
 		}
 		if out.Res.HarnessError != "" || out.Harness != "" {
-			sum.Harness = fmt.Sprintf("run %d seed %d: %s %s", idx, seed, out.Res.HarnessError, out.Harness)
-			break
+			sum.Harness = fmt.Sprintf("run %d.%d seed %d: %s %s", idx, sub, seed, out.Res.HarnessError, out.Harness)
+			stopAll = true
+			return out
 		}
 		for _, v := range out.Violations {
 			if v.Property == "" {
@@ -222,12 +224,31 @@ func Worker(t *testing.T, worldName, profile, property, tier string, base uint64
 			}
 			fv := &FoundViolation{Violation: v, RunIndex: idx, Seed: seed, Count: 1}
 			seen[v.Class()] = fv
-			if len(seen) <= 4 {
+			if len(seen) <= 4 && !knownClass(v.Class()) {
 				rp := minimise(t, w, worldName, profile, sc, cfg, out, v, seed, idx)
 				path := fmt.Sprintf("%s/%s-%d-%d-%s.json", replayDir, v.Property, base, idx, sanitize(v.Rule))
 				writeReplay(path, rp)
 				fv.Replay = path
 				fv.Minimised = true
+			}
+		}
+		return out
+	}
+	for idx := from; idx < to && !stopAll; idx += stride {
+		if budget > 0 && time.Since(wallStart) > budget {
+			break
+		}
+		seed := runSeed(base, idx)
+		r := simrt.NewRand(seed)
+		sc := w.Generate(r, profile, tier)
+		stick := []int{0, 30, 60, 80, 90, 95, 98}[r.Intn(7)]
+		out := runOne(sc, seed, idx, 0, stick)
+		if ex, ok := w.(Expander); ok && !stopAll {
+			for i, v := range ex.Expand(profile, sc, out, r) {
+				if stopAll {
+					break
+				}
+				runOne(v, seed, idx, i+1, stick)
 			}
 		}
 	}
@@ -243,6 +264,16 @@ func Worker(t *testing.T, worldName, profile, property, tier string, base uint64
 	}
 	sum.WallSeconds = time.Since(wallStart).Seconds()
 	return sum
+}
+
+// violation classes listed as known findings are counted but not minimised (the check driver passes them in)
+func knownClass(class string) bool {
+	for _, k := range strings.Split(os.Getenv("VERIF_KNOWN"), ";") {
+		if k != "" && k == class {
+			return true
+		}
+	}
+	return false
 }
 
 func sanitize(s string) string {
